@@ -333,6 +333,41 @@ def run_collisions(acc, block, nblocks):
     acc.sample({"clause": "collision", "pair": list(pairs[block][:1]) + [pairs[block][2] + pairs[block][3]]})
 
 
+# ----------------------------------------------------------------------------- delta reading of offset units in compound expressions
+
+
+def run_delta(acc):
+    """an offset unit standing alone with exponent 1 is itself; in every other unit expression it is read as its delta
+    counterpart unless that is disabled (per call or with default_as_delta=False): every non-multiplicative unit of the
+    bundled registry x 11 expression shapes x 3 settings, in registries built with either default"""
+    M = defs.default_model(core.REPO)
+    st = M.spelling_table()
+    offs = sorted({st[s_] for s_ in st if M.units[st[s_]].kind == "offset" and not M.units[st[s_]].is_multiplicative})  # an offset of 0 (degR, kelvin) is an ordinary unit
+    for dad in (True, False):
+        reg = regs.default("Fraction", fresh=True, default_as_delta=dad)
+        for cu in offs:
+            for sp in [cu, M.units[cu].symbol] + [a for a in M.units[cu].aliases if a.isidentifier()][:2]:
+                if not sp or not sp.isidentifier():
+                    continue
+                shapes = [
+                    (sp, {cu: 1}, True), (f"{sp}**2", {cu: 2}, False), (f"1/{sp}", {cu: -1}, False), (f"{sp}**-2", {cu: -2}, False), (f"{sp}**-1", {cu: -1}, False),
+                    (f"{sp}/meter", {cu: 1, "meter": -1}, False), (f"meter*{sp}", {cu: 1, "meter": 1}, False), (f"meter/{sp}", {cu: -1, "meter": 1}, False), (f"{sp}*{sp}", {cu: 2}, False),
+                    (f"{sp}**1", {cu: 1}, True), (f"meter**2/{sp}**2/second", {cu: -2, "meter": 2, "second": -1}, False),
+                ]
+                for expr, plain, alone in shapes:
+                    for ad in (None, True, False):
+                        eff = dad if ad is None else ad
+                        want = plain if (alone or not eff) else {("delta_" + k if k == cu else k): v for k, v in plain.items()}
+                        acc.ev()
+                        acc.nt(("delta", dad, expr, ad))
+                        o = call(lambda: sorted((k, str(v)) for k, v in dict((reg.parse_units(expr) if ad is None else reg.parse_units(expr, as_delta=ad))._units).items()))
+                        exp_ = sorted((k, str(v)) for k, v in want.items())
+                        if o[0] != "ok" or [list(x) for x in o[1]] != [list(x) for x in exp_]:
+                            acc.violation(["delta-reading", "parse_units", "offset-unit-in-an-expression-not-read-as-documented", "alone" if alone else "compound"], {"default_as_delta": dad, "as_delta": ad, "string": expr}, exp_, o)
+    acc.outcome("delta-reading")
+    acc.sample({"clause": "delta-reading", "strings": ["degC", "1/degC", "degC**-2", "degC/meter"], "as_delta": [None, True, False]})
+
+
 # ----------------------------------------------------------------------------- histories (E2)
 
 
@@ -460,6 +495,7 @@ def shards(tier, seed):
         out.append(("nearmiss", b, 4))
         out.append(("case", b, 4))
         out.append(("collisions", b, 4))
+    out.append(("delta",))
     dT = 3 if tier == "quick" else 4
     dD = 2 if tier == "quick" else 3
     for which, d in (("T", dT), ("D", dD)):
@@ -482,6 +518,8 @@ def run_shard(acc, shard, tier, seed):
         run_case(acc, shard[1], shard[2])
     elif k == "collisions":
         run_collisions(acc, shard[1], shard[2])
+    elif k == "delta":
+        run_delta(acc)
     elif k == "hist":
         run_history_shard(acc, shard[1], shard[2], tuple(shard[3]) if shard[3] else None, tier)
     else:
@@ -497,6 +535,8 @@ def replay(rec):
         hist = tuple(tuple(e) for e in case["history"])
         reg, outs = explore.run_history(drv, hist)
         drv.oracle(acc, reg, hist, outs)
+    elif site[0] == "delta-reading":
+        run_delta(acc)
     elif site[0] == "collision":
         for b in range(4):
             run_collisions(acc, b, 4)
